@@ -25,7 +25,7 @@ RULE = ('case = one generated filter over 1-4 stored documents that are variants
 
 ASSUMPTIONS = [
     'outside F (model answers "unmodelled"): $expr, $regex beyond literal patterns with ^/$ '
-    'anchors, $options, compiled regex values, negative array indexes, empty path components, '
+    'anchors, $options, compiled regex values, negative array indexes, '
     'uuid/bytes/Decimal128/DBRef values',
     'error classes are not compared for C01 (only raised / not raised)',
 ]
@@ -67,11 +67,32 @@ def variants(g, d, k):
     return out
 
 
+EMPTY_KEYS = 0.03      # rate of filter keys with an empty component
+EMPTY_FIELDS = 0.05    # rate of cases whose documents hold a field named ''
+
+
+def empty_field(g, d):
+    """give one of the sub-documents of d (d itself included) a field named '': a new one, or one
+    of its fields renamed (keeping its place)"""
+    subs = [x for x in g.subvalues(d) if isinstance(x, dict)]
+    t = g.r.choice(subs)
+    keys = [k for k in t if k != '_id']
+    if keys and g.r.random() < 0.5:
+        k = g.r.choice(keys)
+        items = [('' if kk == k else kk, v) for kk, v in t.items()]
+        t.clear()
+        t.update(items)
+    else:
+        t[''] = g.value(2)
+
+
 def gen_case(rng):
     oids = wire.Oids()
     g = gen.Gen(rng, oids)
-    fg = gen_filter.FilterGen(g)
+    fg = gen_filter.FilterGen(g, emptykeys=EMPTY_KEYS)
     base = g.doc(3, maxf=4)
+    if rng.random() < EMPTY_FIELDS:
+        empty_field(g, base)
     docs = variants(g, base, rng.choice([1, 2, 3, 4]))
     for i, d in enumerate(docs):
         d.pop('_id', None)
